@@ -32,7 +32,10 @@ ASSUMPTIONS = ['destination unchanged is asserted for pre-existing files only',
 LEVEL = 'fault_enumeration'
 EXHAUSTIVE = False
 
-TEXTS = ['Hello', 'Ünïcødé ♯ title', '𝄞 non-BMP', 'a < b & c', 'ß — „quotes“']
+TEXTS = ['Hello', 'Ünïcødé ♯ title', '𝄞 non-BMP', 'a < b & c', 'ß — „quotes“',
+         # characters that str.splitlines() / universal-newline handling treat as line ends but XML keeps
+         'line\u2028sep and para\u2029sep', 'next\x85line', 'two\nlines', 
+         'trailing newline\n']
 
 
 def build_score(spec):
